@@ -465,6 +465,7 @@ func ruleC07g(c *Ctx) []*report.Result {
 func ruleC13e(c *Ctx) []*report.Result {
 	r := report.NewResult("C13.e", "every reinterpretation of byte storage as a string without copying (through unsafe.Pointer) is an ownership transfer: the storage is a field reached from the method's pointer receiver and on every path to a return that field is assigned nil; an accessor on a copy never hands out a string over the live bytes (later writes, Reset and reuse would change a string a caller holds)", 1)
 	n := 0
+	transfers := map[*ssa.Function]bool{} // functions that give their receiver's storage away
 	for _, fn := range c.P.ModuleFunctions() {
 		for _, b := range fn.Blocks {
 			for _, ins := range b.Instrs {
@@ -522,6 +523,9 @@ func ruleC13e(c *Ctx) []*report.Result {
 				}
 				okPaths := nilStoreOnAllPaths(ins, root, fa.Field)
 				if okPaths {
+					transfers[fn] = true
+				}
+				if okPaths {
 					r.Ok(construct + ": the receiver gives the storage up on every path")
 				} else {
 					r.Fail(construct, pos, "a path reaches a return without the field being assigned nil: the buffer keeps writing into bytes a returned string shares", nil, "")
@@ -532,6 +536,55 @@ func ruleC13e(c *Ctx) []*report.Result {
 	if n == 0 {
 		r.Note("no unsafe reinterpretation in the module")
 		r.Ok("module / no string shares byte storage")
+	}
+	// the transfer is from the object that owns the storage, not from a copy of
+	// it: a method that gives its receiver's storage away must not be called
+	// on a local that was filled by copying another buffer (a value receiver,
+	// `c := *b`) — the copy's nil-ed field is not the original's, which goes on
+	// writing into the bytes the string now shares
+	for _, fn := range c.P.ModuleFunctions() {
+		for _, b := range fn.Blocks {
+			for _, ins := range b.Instrs {
+				ci, ok := ins.(ssa.CallInstruction)
+				if !ok {
+					continue
+				}
+				g := ci.Common().StaticCallee()
+				if g == nil || !transfers[g] || len(ci.Common().Args) == 0 {
+					continue
+				}
+				root := ci.Common().Args[0]
+				for {
+					fa, ok := root.(*ssa.FieldAddr)
+					if !ok {
+						break
+					}
+					root = fa.X
+				}
+				al, isLocal := root.(*ssa.Alloc)
+				if !isLocal || al.Referrers() == nil {
+					continue
+				}
+				copied := false
+				for _, rf := range *al.Referrers() {
+					st, ok := rf.(*ssa.Store)
+					if !ok || st.Addr != ssa.Value(al) {
+						continue
+					}
+					if _, isStruct := st.Val.Type().Underlying().(*types.Struct); isStruct {
+						if k, isConst := st.Val.(*ssa.Const); !isConst || k.Value != nil {
+							copied = true
+						}
+					}
+				}
+				construct := shortFn(fn.String()) + " / " + g.Name() + " on a copy"
+				if copied {
+					r.Fail(construct, c.P.Pos(ins.Pos()), g.Name()+" gives away the storage of its receiver, and the receiver here is a local filled by copying another buffer (a value receiver): the original keeps the same backing array and goes on writing into bytes the returned string shares", nil, "")
+				} else {
+					r.Ok(construct + ": the local was not copied from another buffer")
+				}
+			}
+		}
 	}
 	return []*report.Result{r}
 }
@@ -821,4 +874,95 @@ func derivesFrom(v, root ssa.Value) bool {
 		}
 	}
 	return false
+}
+
+func init() { register("C06.h", ruleC06h) }
+
+// Rule C06.h — the wrapper constructors are total.
+//
+// Everything the printer does for Safe(x)/Unsafe(x) starts from a type test
+// for the wrapper struct. A constructor that, for some operands, returns
+// something else than the wrapper — the operand itself "because a plain
+// string is unsafe anyway" — removes the declaration for exactly those
+// operands: Unsafe("s") is then a plain string, which a registered safe type
+// or a %T prints outside envelopes. Every exported function of the wrapper
+// package that returns a wrapper struct on some path returns, on EVERY path,
+// that wrapper struct built with the function's parameter in its one field;
+// the accessor methods named GetValue return that field.
+func ruleC06h(c *Ctx) []*report.Result {
+	r := report.NewResult("C06.h", "the constructors of the Safe/Unsafe wrappers are total: every exported function of the wrapper package that returns the wrapper struct on some path returns it on every path, with the function's own parameter as its one field (no operand is handed back unwrapped, pre-rendered or re-wrapped); GetValue returns that field", 2)
+	sp := c.P.SSAPkg("internal/redact")
+	if sp == nil {
+		r.Undecide("wrapper package not loaded")
+		return []*report.Result{r}
+	}
+	isWrapper := func(t types.Type) bool {
+		k := c.classifyType(t)
+		return k == "safewrap" || k == "unsafewrap"
+	}
+	n := 0
+	for _, mem := range sortedMembers(sp) {
+		fn, ok := mem.(*ssa.Function)
+		if !ok || fn.Blocks == nil || fn.Object() == nil || !fn.Object().Exported() || fn.Signature.Recv() != nil {
+			continue
+		}
+		type retInfo struct {
+			ret *ssa.Return
+			mi  *ssa.MakeInterface
+		}
+		var rets []retInfo
+		wraps := false
+		for _, b := range fn.Blocks {
+			ret, ok := b.Instrs[len(b.Instrs)-1].(*ssa.Return)
+			if !ok || len(ret.Results) != 1 {
+				continue
+			}
+			mi, _ := ret.Results[0].(*ssa.MakeInterface)
+			if mi != nil && isWrapper(mi.X.Type()) {
+				wraps = true
+			}
+			rets = append(rets, retInfo{ret, mi})
+		}
+		if !wraps || len(fn.Params) != 1 {
+			continue
+		}
+		n++
+		construct := "redact." + fn.Name()
+		okAll := true
+		for _, ri := range rets {
+			pos := c.P.Pos(ri.ret.Pos())
+			if ri.mi == nil || !isWrapper(ri.mi.X.Type()) {
+				okAll = false
+				r.Fail(construct+" / returns the wrapper on every path", pos, "a path returns something other than the wrapper struct: for those operands the declaration is lost — the printer's type tests do not see a wrapper, and a registered safe type, %T or a bad-verb report renders the operand outside envelopes (or, for Safe, inside)", nil, "")
+				continue
+			}
+			// the struct value: field 0 is the parameter
+			okField := false
+			switch sv := ri.mi.X.(type) {
+			case *ssa.UnOp: // load of a local composite
+				if al, ok := sv.X.(*ssa.Alloc); ok && al.Referrers() != nil {
+					for _, rf := range *al.Referrers() {
+						if fa, ok := rf.(*ssa.FieldAddr); ok && fa.Field == 0 && fa.Referrers() != nil {
+							for _, rr := range *fa.Referrers() {
+								if st, ok := rr.(*ssa.Store); ok && st.Val == ssa.Value(fn.Params[0]) {
+									okField = true
+								}
+							}
+						}
+					}
+				}
+			}
+			if !okField {
+				okAll = false
+				r.Fail(construct+" / wraps its parameter", pos, "the wrapper returned does not hold the function's parameter as it was passed", nil, "")
+			}
+		}
+		if okAll {
+			r.Ok(construct + ": every path returns the wrapper around the parameter")
+		}
+	}
+	if n < 2 {
+		r.Undecide(fmt.Sprintf("found %d wrapper constructors (want Safe and Unsafe)", n))
+	}
+	return []*report.Result{r}
 }
